@@ -135,6 +135,7 @@ def main():
         if len(delivered) != len(set(delivered)) and not any(True for _ in []):
             # the same order may legitimately be delivered twice for different accepted requests over time (cancel then cancel again after ...): compare counts below
             pass
+    real_controls(ck, rng, thorough)
     ck.family("request_storms", len(cases), len({r[1] for r in rows}), bad, sorted(set(pbad)),
               dist={"requests": sum(len(r["results"]) for r in res), "packages": sum(len(r["packages"]) for r in res),
                     "max_package": max([p[3] for r in res for p in r["packages"]] or [0]),
@@ -154,6 +155,51 @@ def main():
     if fr[1]["final"][0][1] == "PENDING" and fr[1]["results"] == [4]:
         ck.fail("C02-place-of-placed-order-sets-pending", "place_order of an order already in the blotter set it PENDING and then raised OrderError", {"case": f2, "impl": fr[1]})
     return ck.finish("request storms on a real Market/Transaction with real orders (0-700 requests of mixed kinds over market versions None/0/1/2/3, inside `with market.transaction()` blocks with explicit execute(), exceptions caught inside or escaping the block, or as direct market calls; per-request control verdict from an oracle control; every order status at request time; force on/off; counts around 199/200/201 and 59/60/61 and multiples): per-request result, captured packages and final order state compared in Coq with the model; Betdaq orders are not exercised")
+
+
+def real_controls(ck, rng, thorough):
+    """refusals by the REAL default controls (per-order, per-selection and per-market exposure limits, market validation) inside whole simulated
+    runs: after every strategy call a refused new order is marked as a violation and is in no view of the blotter, every view lists each order of
+    the blotter once, and nothing else appears in them"""
+    import simgen
+    scs = []
+    for _ in range(240 if thorough else 60):
+        s = simgen.gen_scenario(rng, {"kinds": ["L"] * 8 + ["MOC", "LOC"], "p_manage": 0.3, "nstrats": [1, 2], "no_remove": True, "p_remove": 0.0, "p_place": 0.8,
+                                      "p_inplay": 0.1, "min_upd": 6, "max_upd": 10, "nmarkets": [1]})
+        for sp in s["strategies"]:
+            sp.update({"max_sel": rng.choice([3, 5, 10]), "max_order": rng.choice([5, 10, 30]), "max_mkt": rng.choice([None, 5, 10, 20]), "max_live": 10 ** 6, "max_trade": 10 ** 6})
+        scs.append(s)
+    outs = run_impl_parallel("simlib", [{"scenarios": [simgen.to_impl(x) for x in ch], "observe": "all"} for ch in chunked(scs, 20)], timeout=3600)
+    impl = [r for o in outs for r in o["out"]]
+    bad, nref, nacc = [], 0, 0
+    for i, (sc, io) in enumerate(zip(scs, impl)):
+        refused = {r[4] for r in io["requests"] if r[3] == "place" and r[5] is False}
+        nref += len(refused); nacc += sum(1 for r in io["requests"] if r[3] == "place" and r[5] is not False)
+        for ob in io["obs"]:
+            v = ob.get("views")
+            if not v:
+                continue
+            inb = [x[0] for x in v["orders"]]
+            for nm in refused & set(inb):
+                bad.append((i, "C02-refused-order-in-blotter", "refused new order %s is in the blotter at %s" % (nm, ob["pt"]), {"pt": ob["pt"]}))
+            for vname in ("strategy", "selection", "client", "client_strategy", "trades"):
+                for k, lst in v[vname].items():
+                    extra = [nm for nm in lst if nm not in inb]
+                    dup = [nm for nm in set(lst) if lst.count(nm) > 1]
+                    if extra or dup:
+                        bad.append((i, "C02-refusal-left-a-trace" if set(extra) & refused else "C02-view-incoherent",
+                                    "blotter view %s[%s] at %s lists %s that %s" % (vname, k, ob["pt"], extra or dup, "are not in the blotter (refused: %s)" % sorted(set(extra) & refused) if extra else "appear more than once"),
+                                    {"pt": ob["pt"], "view": vname, "key": k}))
+        for o in io["final"]:
+            if o["o"] in refused and o["status"] != "Violation":
+                bad.append((i, "C02-refused-not-violation", "refused new order %s ends %s" % (o["o"], o["status"]), {}))
+    ck.family("refusals_by_the_real_controls", len(scs), len(scs), [], sorted({b[0] for b in bad}),
+              dist={"placements_refused": nref, "placements_accepted": nacc, "runs_aborted_by_impl": sum(1 for io in impl if io["error"])})
+    seen = set()
+    for i, key, desc, det in bad:
+        if key not in seen:
+            seen.add(key)
+            ck.fail(key, desc, {"scenario": scs[i], "detail": det, "how": "harness/impl/simlib.py on the real FlumineSimulation with the default trading controls"})
 
 
 def replay(path):
